@@ -69,6 +69,10 @@ def path_arg_ids(path):
     return out
 
 
+class InjectedInterrupt(KeyboardInterrupt):
+    """F7: the user's Ctrl-C / a kernel interrupt, landing between two lines of library code."""
+
+
 def under_ambient(ambient, fn):
     """F6: perform a read while the HOST is in an unusual but legal state - little stack left,
     or numpy told to raise on floating-point errors. What the read itself returns then may
@@ -80,6 +84,31 @@ def under_ambient(ambient, fn):
 
         with numpy.errstate(all=ambient["errstate"]):
             return fn()
+    if "interrupt" in ambient:
+        import sys
+
+        budget = [int(ambient["interrupt"])]
+
+        def tracer(frame, event, arg):
+            fn = frame.f_code.co_filename
+            if "/cr/cube/" not in fn:
+                return None
+
+            def local(frame, event, arg):
+                if event == "line":
+                    budget[0] -= 1
+                    if budget[0] <= 0:
+                        sys.settrace(None)
+                        raise InjectedInterrupt("injected after %s lines of library code" % ambient["interrupt"])
+                return local
+
+            return local
+
+        sys.settrace(tracer)
+        try:
+            return fn()
+        finally:
+            sys.settrace(None)
     if "deep" in ambient:
         import sys
 
@@ -104,6 +133,8 @@ def attempt(fn):
         return fn()
     except PathError:
         raise
+    except InjectedInterrupt as e:
+        return e
     except (KeyboardInterrupt, SystemExit, MemoryError):
         raise
     except BaseException as e:  # noqa: B902 - the library may raise anything
@@ -180,11 +211,31 @@ class World:
         self.handles = {}  # "c0.h1" -> (spec_id, root, private_args or None)
         self.step = 0
         self.held = []  # arrays handed out by reads, kept the way a caller keeps them
+        self.detached = set()  # derived arguments whose sharing was broken by a RELOAD
+        self.epoch = 0  # bumped by every caller edit (F8); references are built per epoch
+        self.base_texts = {}
+        self.epoch_texts = [dict(self.texts)]
         import warnings as _w
 
         self._env0 = (dict(np.geterr()), len(_w.filters), tuple(_w.filters[:3]))
 
     # -- argument access
+    def _dependents(self, aid, ignore_detached=False):
+        """`aid` plus every derived argument built on it."""
+        out = {aid}
+        grew = True
+        while grew:
+            grew = False
+            for a, ad in self.sc["args"].items():
+                if a in self.detached and not ignore_detached:
+                    continue
+                bases = ([ad["view_of"]] if "view_of" in ad else []) + ([ad["trim_of"]] if "trim_of" in ad else []) + (
+                    model.compose_refs(ad["compose"]) if "compose" in ad else [])
+                if a not in out and set(bases) & out:
+                    out.add(a)
+                    grew = True
+        return out
+
     def fresh_family(self):
         """get_arg for a brand-new family of pristine copies (sharing relations kept)."""
         mine = {}
@@ -228,7 +279,7 @@ class World:
             else:
                 get_arg = self.shared.__getitem__
             root = attempt(lambda: model.construct(spec, get_arg))
-            self.handles["%s.%s" % (cid, hid)] = (sid, root, get_arg)
+            self.handles["%s.%s" % (cid, hid)] = (sid, root, get_arg, [], self.epoch)
             d, s, k, x = observe(root)
             ev.update(d=d, s=s, k=k, x=x, sid=sid, private=private)
         elif kind in ("READ", "READX"):
@@ -237,10 +288,15 @@ class World:
             key = "%s.%s" % (cid, hid)
             if key not in self.handles:
                 raise PathError("no handle %s" % key)
-            sid, root, get_arg = self.handles[key]
+            sid, root, get_arg, prefix, h_epoch = self.handles[key]
             v = attempt(lambda: under_ambient(ambient, lambda: resolve(root, path, get_arg)))
             d, s, k, x = observe(v)
             ev.update(d=d, s=s, k=k, x=x, sid=sid)
+            if h_epoch:
+                ev["v"] = h_epoch  # the content the object was built from (a private client's
+                # copies, and shared arguments no edit has touched since, are of that epoch)
+            if prefix:
+                ev["full"] = prefix + path  # the path from the spec's root, for the reference
             if isinstance(v, (np.ndarray, list)) and len(self.held) < 400:
                 self.held.append((ev["i"], sid, path, v, d, s))
         elif kind == "PROBE":
@@ -254,25 +310,91 @@ class World:
             v = attempt(probe)
             d, s, k, x = observe(v)
             ev.update(d=d, s=s, k=None, x=x, sid=sid)
+        elif kind == "EDIT":
+            # F8: the caller edits one of ITS OWN argument objects in place between renders.
+            # Every object built on it is let go first (the caller re-renders); what is built
+            # afterwards must equal a fresh evaluation on pristine copies of the EDITED content.
+            _k, aid, edit = op
+            obj = self.shared[aid]
+            ad = self.sc["args"][aid]
+            if not isinstance(obj, dict) or (aid not in self.detached and any(k in ad for k in ("view_of", "compose", "trim_of"))):
+                ev["edit"] = "skipped"
+            else:
+                users = self._dependents(aid)
+                # objects built before a RELOAD may still wrap the old, shared objects: let go of
+                # everything that was EVER derived from the edited argument
+                ever = self._dependents(aid, ignore_detached=True)
+                dropped = [k for k, h in self.handles.items()
+                           if set(model.spec_arg_ids(self.sc["specs"][h[0]])) & ever]
+                for k in dropped:
+                    del self.handles[k]
+                import gc
+
+                gc.collect()
+                model.apply_edit(obj, edit)
+                self.base_texts[aid] = json.dumps(model.apply_edit(json.loads(self.texts[aid]), edit))
+                self.texts = model.arg_texts(self.sc, self.base_texts)
+                if self.detached:
+                    self.texts["__detached__"] = sorted(self.detached)
+                self.epoch += 1
+                self.epoch_texts.append(dict(self.texts))
+                for a in users:  # the caller's own edit is not an edit by the library
+                    if a in self.shared:
+                        self.snap[a] = copy.deepcopy(self.shared[a])
+                        self.arg_digest[a] = json_digest(self.shared[a])
+                ev["edit"] = "applied"
+                ev["dropped"] = sorted(dropped)
+        elif kind == "HOLD":
+            # the client keeps an object a read handed out (a partition, a dimension, a pairwise
+            # test object ...) as a handle of its own, independent of the cube it came from
+            _k, cid, hid, src, path = op
+            skey = "%s.%s" % (cid, src)
+            if skey not in self.handles:
+                raise PathError("no handle %s" % skey)
+            sid, root, get_arg, prefix, h_epoch = self.handles[skey]
+            obj = attempt(lambda: resolve(root, path, get_arg))
+            if isinstance(obj, BaseException):
+                raise PathError("cannot hold: %r" % (obj,))
+            self.handles["%s.%s" % (cid, hid)] = (sid, obj, get_arg, prefix + path, h_epoch)
+            d, s, k, x = observe(obj)
+            ev.update(d=d, s=s, k=k, x=x, sid=sid)
         elif kind == "DROP":
             _k, cid, hid = op
             key = "%s.%s" % (cid, hid)
             if key not in self.handles:
                 raise PathError("no handle %s" % key)
             del self.handles[key]
+            import gc
+
+            gc.collect()  # whatever was only reachable through the dropped object is gone now
         elif kind == "RELOAD":
             _k, aid, mode = op
             obj = self.shared[aid]
+            family = self._dependents(aid, ignore_detached=True)
+            derived = any(k in self.sc["args"][aid] for k in ("view_of", "compose", "trim_of"))
             if not isinstance(obj, (dict, list)):
                 ev["reload"] = "immutable"
+            elif derived or len(family) > 1:
+                # persisting one member of a family of arguments that share sub-objects would
+                # leave the others half attached; the model keeps such families whole
+                ev["reload"] = "skipped (argument shares structure with others)"
             else:
                 new, how = model.reload_object(obj, mode)
+                # persistence breaks sharing: a derived argument that is loaded back is a plain
+                # copy from now on, and arguments derived from `aid` keep wrapping the OLD object
+                for a in self._dependents(aid):
+                    ad = self.sc["args"][a]
+                    if a != aid or any(k in ad for k in ("view_of", "compose", "trim_of")):
+                        self.detached.add(a)
+                        self.base_texts[a] = self.texts[a]
                 self.shared[aid] = new
                 self.snap[aid] = copy.deepcopy(new)
                 ev["reload"] = how
                 ev["edited"] = self.arg_digest[aid] != self.pristine_digest[aid]
         else:
             raise PathError("unknown op %r" % (op,))
+        if self.epoch and "v" not in ev and kind in ("CONSTRUCT", "PROBE"):
+            ev["v"] = self.epoch
         chg = self._changed_args()
         if chg:
             ev["chg"] = chg
